@@ -16,6 +16,9 @@ import RedisVerif.Model.Crdt
   * A state is `HashMap<String, ReplicatedValue>` → `NMap RV` (keys = injective key codes).
     Wherever the code ITERATES the map the iteration order is an explicit parameter
     `π : List Nat` (the keys in the order the real map yields them).
+  * `vs : ValueStream` is what `KeyDigest::new` feeds to the value hasher: `pinnedStream` (outer
+    stamp + live LWW bytes, the code before the `fix:` commit) or `canonicalStream` (everything
+    that distinguishes two values, in canonical order — the current tree).
   * `sortBucket` selects between the code as it is (`false`: bucket digests are folded in
     iteration order) and the suggested patch (`true`: each bucket's digests are sorted by
     `(key_hash, value_hash)` before folding).
@@ -27,8 +30,8 @@ namespace AE
 structure Hasher where
   /-- `key.hash(&mut DefaultHasher::new()); finish()` for a key (given by its key code) -/
   key : Nat → Nat
-  /-- `time.hash; replica_id.hash; if let Some(v) = value.get() { v.as_bytes().hash }` -/
-  val : Nat → Nat → Option Bytes → Nat
+  /-- the value hasher, as a function of the stream of words fed to it (`ValueStream`) -/
+  val : List Nat → Nat
   /-- a stream of `u64` words: `from_digests` (`key_hash, value_hash` per digest) and
       `combine` (`left.hash, right.hash`) -/
   words : List Nat → Nat
@@ -40,9 +43,64 @@ structure KeyDigest where
   timestamp : Nat
   deriving DecidableEq, Repr, Inhabited
 
+/-! ### what `KeyDigest::new` feeds to the value hasher
+
+  Every variable-length part is length-prefixed and every alternative is tagged, as Rust's
+  `Hash` impls for slices / `Vec` / `Option` / tuples do; the model's canonical (sorted) maps and
+  sets stand for "visited in sorted order". -/
+
+def serList {α : Type} (f : α → List Nat) (l : List α) : List Nat := l.length :: l.flatMap f
+
+def serBytes (b : Bytes) : List Nat := serList (fun x => [x]) b
+
+def serOptBytes : Option Bytes → List Nat
+  | none => [0]
+  | some b => 1 :: serBytes b
+
+def serStamp (s : Stamp) : List Nat := [s.time, s.rid]
+
+def serLww (r : Lww) : List Nat := serOptBytes r.value ++ (serStamp r.ts ++ [if r.tomb then 1 else 0])
+
+def serCounts (m : NMap Nat) : List Nat := serList (fun p => [p.1, p.2]) m
+
+def serNSet (s : NSet) : List Nat := serList (fun k => [k]) s
+
+def serCrdt : Crdt → List Nat
+  | .lww r => 0 :: serLww r
+  | .gcounter c => 1 :: serCounts c
+  | .pncounter p n => 2 :: (serCounts p ++ serCounts n)
+  | .gset s => 3 :: serNSet s
+  | .orset e nx => 4 :: (serList (fun p => p.1 :: serNSet p.2) e ++ serCounts nx)
+  | .hash h => 5 :: serList (fun p => p.1 :: serLww p.2) h
+
+def serOptNat : Option Nat → List Nat
+  | none => [0]
+  | some n => [1, n]
+
+def serOptCounts : Option (NMap Nat) → List Nat
+  | none => [0]
+  | some m => 1 :: serCounts m
+
+/-- a value stream: what is fed to the value hasher for a replicated value -/
+abbrev ValueStream := RV → List Nat
+
+/-- the value stream of the pinned code: outer stamp, and the live LWW bytes if there are any
+    (`time.hash; replica_id.hash; if let Some(v) = value.get() { v.as_bytes().hash }`) -/
+def pinnedStream : ValueStream := fun v =>
+  serStamp v.ts ++ (match v.get with | none => [] | some b => serBytes b)
+
+/-- the value stream of `canonical_hash` (since the `fix:` commit recorded in
+    known_findings.json): outer stamp, CRDT kind and full content, vector clock, expiry,
+    replication factor -/
+def canonicalStream : ValueStream := fun v =>
+  serStamp v.ts ++ (serCrdt v.crdt ++ (serOptCounts v.vc ++ (serOptNat v.expiry ++ serOptNat v.rf)))
+
+/-- the value stream of the current tree -/
+def currentStream : ValueStream := canonicalStream
+
 /-- `KeyDigest::new(key, value)` -/
-def keyDigest (H : Hasher) (k : Nat) (v : RV) : KeyDigest :=
-  { keyHash := H.key k, valueHash := H.val v.ts.time v.ts.rid v.get, timestamp := v.ts.time }
+def keyDigest (H : Hasher) (vs : ValueStream) (k : Nat) (v : RV) : KeyDigest :=
+  { keyHash := H.key k, valueHash := H.val (vs v), timestamp := v.ts.time }
 
 /-- `KeyDigest::bucket(depth)`: `(key_hash as usize) % (1 << depth)` -/
 def bucketOf (depth : Nat) (d : KeyDigest) : Nat := d.keyHash % 2 ^ depth
@@ -107,12 +165,14 @@ def rootOf (H : Hasher) : List MerkleNode → MerkleNode
   | b :: rest => rest.foldl (combine H) b
 
 /-- the key digests that `from_state` pushes into bucket `b`, in push order -/
-def bucketDigests (H : Hasher) (depth : Nat) (π : List Nat) (s : NMap RV) (b : Nat) : List KeyDigest :=
-  ((iter π s).map fun p => keyDigest H p.1 p.2).filter fun d => bucketOf depth d == b
+def bucketDigests (H : Hasher) (vs : ValueStream) (depth : Nat) (π : List Nat) (s : NMap RV) (b : Nat) :
+    List KeyDigest :=
+  ((iter π s).map fun p => keyDigest H vs p.1 p.2).filter fun d => bucketOf depth d == b
 
 /-- `StateDigest::from_state(keys, _, _, depth)` -/
-def fromState (H : Hasher) (sortBucket : Bool) (depth : Nat) (π : List Nat) (s : NMap RV) : StateDigest :=
-  let buckets := (List.range (2 ^ depth)).map fun b => fromDigests H sortBucket (bucketDigests H depth π s b)
+def fromState (H : Hasher) (sortBucket : Bool) (vs : ValueStream) (depth : Nat) (π : List Nat)
+    (s : NMap RV) : StateDigest :=
+  let buckets := (List.range (2 ^ depth)).map fun b => fromDigests H sortBucket (bucketDigests H vs depth π s b)
   let root := rootOf H buckets
   { rootHash := root.hash, keyCount := root.count, maxTs := root.maxTs, buckets := buckets }
 
@@ -130,9 +190,9 @@ def divergentBuckets (a b : StateDigest) : List Nat :=
   common ++ extra a ++ extra b
 
 /-- `AntiEntropyManager::get_keys_in_buckets`: `keys.iter().filter(bucket ∈ buckets).take(limit)` -/
-def getKeysInBuckets (H : Hasher) (depth limit : Nat) (π : List Nat) (s : NMap RV) (buckets : List Nat) :
-    List (Nat × RV) :=
-  ((iter π s).filter fun p => buckets.contains (bucketOf depth (keyDigest H p.1 p.2))).take limit
+def getKeysInBuckets (H : Hasher) (vs : ValueStream) (depth limit : Nat) (π : List Nat) (s : NMap RV)
+    (buckets : List Nat) : List (Nat × RV) :=
+  ((iter π s).filter fun p => buckets.contains (bucketOf depth (keyDigest H vs p.1 p.2))).take limit
 
 /-- `ShardReplicaState::apply_remote_delta` on `replicated_keys` (the Lamport clock and the
     executor write-through of `SimulatedNode::apply_remote_deltas` are not part of the state
@@ -150,29 +210,29 @@ def currentSortBucket : Bool := true
 /-- the crosswise application of `run_anti_entropy_sync`: both delta sets are computed from the
     pre-states (`get_keys_in_buckets` on either side), then `node_b` applies `deltas_a` and
     `node_a` applies `deltas_b` -/
-def exchange (H : Hasher) (depth limit : Nat) (πa πb : List Nat) (a b : NMap RV) (div : List Nat) :
-    NMap RV × NMap RV :=
-  let deltasA := getKeysInBuckets H depth limit πa a div
-  let deltasB := getKeysInBuckets H depth limit πb b div
+def exchange (H : Hasher) (vs : ValueStream) (depth limit : Nat) (πa πb : List Nat) (a b : NMap RV)
+    (div : List Nat) : NMap RV × NMap RV :=
+  let deltasA := getKeysInBuckets H vs depth limit πa a div
+  let deltasB := getKeysInBuckets H vs depth limit πb b div
   (applyDeltas a deltasB, applyDeltas b deltasA)
 
 /-- `MultiNodeSimulation::run_anti_entropy_sync(node_a, node_b)` on the two `replicated_keys` maps -/
-def syncRoundWith (H : Hasher) (sortBucket : Bool) (depth limit : Nat) (πa πb : List Nat)
-    (a b : NMap RV) : NMap RV × NMap RV :=
-  let da := fromState H sortBucket depth πa a
-  let db := fromState H sortBucket depth πb b
+def syncRoundWith (H : Hasher) (sortBucket : Bool) (vs : ValueStream) (depth limit : Nat)
+    (πa πb : List Nat) (a b : NMap RV) : NMap RV × NMap RV :=
+  let da := fromState H sortBucket vs depth πa a
+  let db := fromState H sortBucket vs depth πb b
   if differsFrom da db then
     let div := divergentBuckets da db
-    if !div.isEmpty then exchange H depth limit πa πb a b div
+    if !div.isEmpty then exchange H vs depth limit πa πb a b div
     else (a, b)
   else (a, b)
 
 /-- the digest / the sync round of the current tree -/
 def digest (H : Hasher) (depth : Nat) (π : List Nat) (s : NMap RV) : StateDigest :=
-  fromState H currentSortBucket depth π s
+  fromState H currentSortBucket currentStream depth π s
 
 def syncRound (H : Hasher) (depth limit : Nat) (πa πb : List Nat) (a b : NMap RV) : NMap RV × NMap RV :=
-  syncRoundWith H currentSortBucket depth limit πa πb a b
+  syncRoundWith H currentSortBucket currentStream depth limit πa πb a b
 
 end AE
 end RedisVerif
